@@ -41,17 +41,38 @@ def strip_comments(src: str) -> str:
     return "".join(out)
 
 
-def grep_forbidden():
+def project_closure(modules):
+    """transitive QuantemModel.* imports of the given modules → list of file paths"""
+    seen, todo = {}, list(modules)
+    while todo:
+        m = todo.pop()
+        if m in seen:
+            continue
+        path = os.path.join(LEAN_DIR, m.replace(".", "/") + ".lean")
+        if not os.path.exists(path):
+            continue
+        seen[m] = path
+        for line in strip_comments(open(path).read()).splitlines():
+            mm = re.match(r"\s*(?:public\s+)?import\s+(?:all\s+)?(QuantemModel\.\S+)", line)
+            if mm:
+                todo.append(mm.group(1))
+    return sorted(seen.values())
+
+
+def grep_forbidden(modules=None):
+    """forbidden tokens in the files the property's theorems and driver depend on"""
     hits = []
-    root = os.path.join(LEAN_DIR, "QuantemModel")
-    for dp, _, fs in os.walk(root):
-        for f in fs:
-            if f.endswith(".lean"):
-                p = os.path.join(dp, f)
-                code = strip_comments(open(p).read())
-                for m in FORBIDDEN.finditer(code):
-                    line = code.count("\n", 0, m.start()) + 1
-                    hits.append(f"{os.path.relpath(p, LEAN_DIR)}:{line}:{m.group(0).strip()}")
+    if modules is None:
+        files = []
+        for dp, _, fs in os.walk(os.path.join(LEAN_DIR, "QuantemModel")):
+            files += [os.path.join(dp, f) for f in fs if f.endswith(".lean")]
+    else:
+        files = project_closure(modules)
+    for p in files:
+        code = strip_comments(open(p).read())
+        for m in FORBIDDEN.finditer(code):
+            line = code.count("\n", 0, m.start()) + 1
+            hits.append(f"{os.path.relpath(p, LEAN_DIR)}:{line}:{m.group(0).strip()}")
     return hits
 
 
